@@ -129,6 +129,9 @@ def resolve_field(idx, tyname, cfield, depth=0):
     for f in it["fields"]:
         if f["name"].startswith("__bindgen_anon_"):
             inner = f["ty"].replace(" ", "").replace("root::", "")
+            m = re.fullmatch(r"__BindgenUnionField<(.*)>", inner)
+            if m:
+                inner = m.group(1)
             sub = resolve_field(idx, inner, cfield, depth + 1)
             if sub:
                 return [f["name"]] + sub
@@ -148,6 +151,9 @@ def field_ty(idx, tyname, path):
             return None
         ty = f["ty"].replace(" ", "")
         cur = ty.replace("root::", "")
+        m = re.fullmatch(r"__BindgenUnionField<(.*)>", cur)
+        if m:
+            cur = m.group(1)
     return ty
 
 
